@@ -155,6 +155,57 @@ func (w *world) runTable() {
 	}
 	if w.sp.Only == "" {
 		w.bulkCheck()
+		if w.sp.Shard == flagSecret {
+			w.probeLateDrain()
+		}
+	}
+}
+
+// probeLateDrain is a diagnostic, not an oracle. A record is pushed to a
+// non-privileged subscriber while it is unflagged (which is allowed) and stays in the
+// feed buffer; the privileged side then marks it secret and writes a new payload
+// generation; only then the subscriber drains its feed. On storages that keep live
+// record objects (hashmap, injected) the buffered element is the stored object itself,
+// so the subscriber reads the later, secret generation. The push itself happened when
+// the statement allowed it, so this is reported as an observation (coverage counters
+// late_drain_probe_*), never as a violation.
+func (w *world) probeLateDrain() {
+	key := w.db + ":c/probe/k"
+	if _, err := w.privPut(key, 0, "meta", "struct"); err != nil {
+		return
+	}
+	o := database.NewInterface(nil)
+	sub, err := o.Subscribe(prefixQuery(w.db, "c/probe/"))
+	if err != nil {
+		return
+	}
+	tb := w.newTok(key, 0, "priv")
+	err1 := w.W.InsertValue(key, "Name", tb) // pushed, not yet drained
+	tc := w.newTok(key, flagSecret, "priv")
+	err2 := w.Wf[flagSecret].InsertValue(key, "Name", tc) // secret from here on; push refused
+	var seen []byte
+	n := 0
+drain:
+	for {
+		select {
+		case r := <-sub.Feed:
+			if r == nil {
+				break drain
+			}
+			n++
+			seen = append(seen, bytesJoin(observe(r).Bytes)...)
+		default:
+			break drain
+		}
+	}
+	_ = sub.Cancel()
+	if err1 != nil || err2 != nil || n == 0 {
+		return
+	}
+	w.b.Count("late_drain_probe_runs", 1)
+	if bytes.Contains(seen, []byte(tc)) {
+		w.b.Count("late_drain_probe_secret_generation_read", 1)
+		w.b.Seen("late_drain_probe_aliasing_storages", w.backend)
 	}
 }
 
@@ -212,6 +263,9 @@ func (w *world) runCell(c cell) {
 		o := database.NewInterface(&database.Options{Local: x.l, Internal: x.i, CacheSize: cacheSize(c.Cache)})
 		x.runIface(o)
 	}
+	if x.decided {
+		w.b.Count("cells_decided", 1)
+	}
 	if w.samples < 2 && x.decided && (w.samples == 0) == x.perm {
 		w.samples++
 		w.b.Sample(map[string]any{"cell": c, "permitted": x.perm, "target_after": w.audit(x.key)})
@@ -251,7 +305,7 @@ func pathSig(path, backend string) string {
 
 // staleCache is the precondition class "the observer has a read cache that may hold
 // an outdated copy of the record".
-func (x *exec) staleCache() bool { return x.c.Part == "reflag" && x.c.Cache }
+func (x *exec) staleCache() bool { return x.c.Part == "reflag" && x.c.Cache && x.c.Path != "query" }
 
 // vsig builds a violation signature: C03:<oracle>:<path>[:<storage>][:stale-cache]:<clause>.
 func vsig(kind, path, backend string, stale bool, cl string) string {
@@ -601,10 +655,18 @@ func (x *exec) runIface(o *database.Interface) {
 
 	case "putmany":
 		ot := x.ownTok(0)
-		put := o.PutMany(w.db)
-		err := put(newRec(x.key, ot, c.K))
-		if err == nil {
-			err = put(nil)
+		var err error
+		// (a batch on a storage without batch support can block forever; the
+		// refusal normally happens before the storage is involved)
+		if !watchdog(30*time.Second, func() {
+			put := o.PutMany(w.db)
+			err = put(newRec(x.key, ot, c.K))
+			if err == nil {
+				err = put(nil)
+			}
+		}) {
+			w.b.Inconclusive("cell %s: PutMany did not return (watchdog)", c.sig())
+			return
 		}
 		x.hand(nil, errText(err))
 		// documented rule: batch writes need all permissions, whatever the record
@@ -654,6 +716,21 @@ func (x *exec) ownTok(flags int) string {
 	return t
 }
 
+// watchdog runs fn and reports whether it returned in time (never a verdict).
+func watchdog(d time.Duration, fn func()) bool {
+	done := make(chan struct{})
+	go func() {
+		defer close(done)
+		fn()
+	}()
+	select {
+	case <-done:
+		return true
+	case <-time.After(d):
+		return false
+	}
+}
+
 func setPayload(r record.Record, tok string) {
 	switch t := r.(type) {
 	case *srec:
@@ -669,72 +746,119 @@ func setPayload(r record.Record, tok string) {
 
 func (w *world) bulkCheck() {
 	pq := prefixQuery(w.db, "c/")
-	it, err := w.A.Query(pq)
-	if err != nil {
-		w.b.Inconclusive("bulk: privileged query failed: %v", err)
+	ref := map[string]int{} // key -> flags, as the privileged side sees them
+	refQuery := func() error {
+		it, err := w.A.Query(pq)
+		if err != nil {
+			return err
+		}
+		var raw []record.Record
+		for r := range it.Next {
+			raw = append(raw, r)
+		}
+		for _, r := range raw {
+			r.Lock()
+			ref[r.Key()] = metaFlags(r.Meta())
+			w.retag(snap{Exists: true, Data: recData(r), Flags: metaFlags(r.Meta())})
+			r.Unlock()
+		}
+		return it.Err()
+	}
+	if err := refQuery(); err != nil || len(ref) == 0 {
+		w.b.Inconclusive("bulk: privileged query failed: %v (%d records)", err, len(ref))
 		return
 	}
-	ref := map[string]int{} // key -> flags
-	for r := range it.Next {
-		r.Lock()
-		ref[r.Key()] = metaFlags(r.Meta())
-		w.retag(snap{Exists: true, Data: recData(r), Flags: metaFlags(r.Meta())})
-		r.Unlock()
-	}
-	if it.Err() != nil || len(ref) == 0 {
-		w.b.Inconclusive("bulk: privileged query failed: %v (%d records)", it.Err(), len(ref))
-		return
-	}
-	w.b.Max("bulk_records", int64(len(ref)))
 	type view struct {
-		name string
-		l, i bool
-		keys map[string]bool
-		err  error
+		name  string
+		l, i  bool
+		cache bool
+		api   bool
+		keys  map[string]bool
 	}
 	var views []*view
 	for _, obs := range observers {
 		for _, cache := range []bool{false, true} {
-			v := &view{name: fmt.Sprintf("%s/%v", obs, cache), l: obs[0] == 'L', i: obs[1] == 'I', keys: map[string]bool{}}
-			o := database.NewInterface(&database.Options{Local: v.l, Internal: v.i, CacheSize: cacheSize(cache)})
-			it, err := o.Query(pq)
-			if err != nil {
-				v.err = err
-			} else {
-				recs, qerr := drainQuery(it, it.Next)
-				v.err = qerr
-				for _, r := range recs {
-					v.keys[r.Key] = true
-					w.scanFor(v.l, v.i, "bulk-query:"+w.backend, false, nil, func() map[string]any {
-						return map[string]any{"child": w.sp, "observer": v.name, "key": r.Key}
-					}, r.Bytes...)
-				}
-			}
-			views = append(views, v)
+			views = append(views, &view{name: fmt.Sprintf("%s/%v", obs, cache), l: obs[0] == 'L', i: obs[1] == 'I', cache: cache, keys: map[string]bool{}})
 		}
 	}
-	if a := newAPIConn(w); a != nil {
-		v := &view{name: "api", keys: map[string]bool{}}
-		msgs, ok := a.query("9", "query "+w.db+":c/")
-		if !ok {
-			v.err = errors.New("api query did not finish")
-		}
-		for _, m := range msgs {
-			if k, isRec := apiRecordKey(m, "9"); isRec {
-				v.keys[k] = true
+	views = append(views, &view{name: "api", api: true, keys: map[string]bool{}})
+	// list runs the observer's query once, scans everything handed over and adds the
+	// listed keys to the view
+	list := func(v *view, try int) error {
+		if v.api {
+			a := newAPIConn(w)
+			id := fmt.Sprintf("9%d", try)
+			msgs, ok := a.query(id, "query "+w.db+":c/")
+			if !ok {
+				return errors.New("api query did not finish (watchdog)")
 			}
-			w.scanFor(false, false, "bulk-api-query:"+w.backend, false, nil, func() map[string]any {
-				return map[string]any{"child": w.sp, "observer": "api", "message": clip(string(m))}
-			}, m)
+			for _, m := range msgs {
+				if k, isRec := apiRecordKey(m, id); isRec {
+					v.keys[k] = true
+				}
+				w.scanFor(false, false, "bulk-api-query:"+w.backend, false, nil, func() map[string]any {
+					return map[string]any{"child": w.sp, "observer": "api", "message": clip(string(m))}
+				}, m)
+				if isType(id, "error")(m) {
+					return errors.New(clip(string(m)))
+				}
+			}
+			return nil
 		}
-		views = append(views, v)
+		o := database.NewInterface(&database.Options{Local: v.l, Internal: v.i, CacheSize: cacheSize(v.cache)})
+		it, err := o.Query(pq)
+		if err != nil {
+			return err
+		}
+		recs, qerr := drainQuery(it, it.Next)
+		for _, r := range recs {
+			v.keys[r.Key] = true
+			w.scanFor(v.l, v.i, "bulk-query:"+w.backend, false, nil, func() map[string]any {
+				return map[string]any{"child": w.sp, "observer": v.name, "key": r.Key}
+			}, r.Bytes...)
+		}
+		return qerr
+	}
+	missing := func(v *view) int {
+		n := 0
+		for k, f := range ref {
+			if !v.keys[k] && permitted(v.l, v.i, f) {
+				n++
+			}
+		}
+		return n
 	}
 	for _, v := range views {
 		w.b.Eval(1)
 		w.b.DistinctS("bulk/" + w.sp.name() + "/" + v.name)
-		if v.err != nil {
-			w.b.Inconclusive("bulk: query of observer %s failed: %v", v.name, v.err)
+		// A query that the storage cut short (its executor gives up when the
+		// consumer stalls for a second; the iterator may be closed before the
+		// error is stored) lists too little: a permission defect is deterministic,
+		// so a record counts as withheld only if every try withholds it.
+		var lerr error
+		for try := 0; try < 4; try++ {
+			lerr = list(v, try)
+			if lerr == nil && missing(v) == 0 {
+				break
+			}
+			w.b.Count("bulk_query_retries", 1)
+		}
+		if lerr != nil {
+			w.b.Inconclusive("bulk: query of observer %s failed: %v", v.name, lerr)
 			continue
+		}
+		unknown := 0
+		for k := range v.keys {
+			if _, ok := ref[k]; !ok {
+				unknown++
+			}
+		}
+		if unknown > 0 {
+			// the privileged reference itself was cut short: complete it
+			if err := refQuery(); err != nil {
+				w.b.Inconclusive("bulk: privileged query failed: %v", err)
+				return
+			}
 		}
 		okAll := true
 		for k, f := range ref {
@@ -748,19 +872,15 @@ func (w *world) bulkCheck() {
 			case !v.keys[k] && p:
 				okAll = false
 				w.b.Violation(prop+":permitted-refused:bulk-query:"+w.backend,
-					fmt.Sprintf("a query over the whole database did not list a %s record for observer %s although the statement permits it", flagNames[f], v.name),
+					fmt.Sprintf("a query over the whole database did not list a %s record for observer %s in any of 4 tries although the statement permits it", flagNames[f], v.name),
 					map[string]any{"child": w.sp, "observer": v.name, "key": k, "flags": flagNames[f]})
-			}
-		}
-		for k := range v.keys {
-			if _, ok := ref[k]; !ok {
-				w.b.Note("bulk: observer %s listed %s which the privileged query did not list", v.name, k)
 			}
 		}
 		if okAll {
 			w.b.Count("bulk_views_ok", 1)
 		}
 	}
+	w.b.Max("bulk_records", int64(len(ref)))
 }
 
 func clip(s string) string {
